@@ -101,7 +101,11 @@ def check_deck(deck, seed, flags=(), lattice=(), n_points=60, want=('C01', 'C08'
             if sid in f.surfaces and _same_locus(f, sid, deck, sid):
                 continue
             merged = [k for k in f.surfaces if k != sid and _same_locus(f, k, deck, sid)]
-            if sid not in bounding:
+            if sid in f.surfaces and sid in bounding:
+                bc_fail('entry-designates-a-written-surface-with-another-locus',
+                     f'surface {s.bc}{sid}: SURF {sid} of the file is not the flagged surface'
+                     + (f' (surfaces {merged[:2]} are)' if merged else ''))
+            elif sid not in bounding:
                 # known finding F6, plain case: the flagged surface is used by no converted cell at all (that some
                 # other written surface happens to have the same locus is irrelevant)
                 bc_fail('entry-on-a-flagged-surface-bounding-no-converted-cell',
@@ -246,6 +250,19 @@ def _same_locus(f, t4_id, deck, mcnp_id, n=600):
         neg = deck.sense_neg(mcnp_id, pt)
         if neg is None:
             continue
+        ms = deck.surfs.get(mcnp_id)
+        if ms is not None and ms.mn in ('kx', 'ky', 'kz') and len(ms.params) == 3:
+            # one-sheet cone: the T4 cone has both sheets (the apex plane is a separate surface); compare on the side
+            # of the apex where the MCNP sheet lives (in the frame of the card when it carries a TR number)
+            ax = 'xyz'.index(ms.mn[1])
+            q = deck.to_aux(('num', ms.tr), pt) if ms.tr else pt
+            if (q[ax] - ms.params[0]) * ms.params[2] <= 0:
+                continue
+        elif ms is not None and ms.mn in ('k/x', 'k/y', 'k/z') and len(ms.params) == 5:
+            ax = 'xyz'.index(ms.mn[2])
+            q = deck.to_aux(('num', ms.tr), pt) if ms.tr else pt
+            if (q[ax] - ms.params[ax]) * ms.params[4] <= 0:
+                continue
         v = f.surf_value(t4_id, pt)
         if abs(v) < 1e-7:
             continue
@@ -253,7 +270,7 @@ def _same_locus(f, t4_id, deck, mcnp_id, n=600):
             agree += 1
         else:
             disagree += 1
-    return agree + disagree > n // 2 and (disagree == 0 or agree == 0)
+    return agree + disagree >= n // 6 and (disagree == 0 or agree == 0)
 
 
 _SYMBOLS = ('H HE LI BE B C N O F NE NA MG AL SI P S CL AR K CA SC TI V CR MN FE CO NI CU ZN GA GE AS SE BR KR RB SR Y '
